@@ -250,7 +250,7 @@ def enum_histories(max_len, shard, of):
 
 
 def jobs(tier, seed):
-    n, shards, steps = (1600, 8, 30) if tier == "quick" else (32000, 16, 50)
+    n, shards, steps = (1600, 8, 30) if tier == "quick" else (128000, 16, 50)
     out = [{"name": f"hyp-{i}", "kind": "hyp", "seed": seed * 1000 + i, "n": n // shards, "steps": steps} for i in range(shards)]
     L = 4 if tier == "quick" else 5
     out += [{"name": f"enum-{i}", "kind": "enum", "len": L, "shard": i, "of": 16} for i in range(16)]
